@@ -410,6 +410,15 @@ class ExprMixin:
 
     def py_eq(self, a, b, node=None):
         """`a == b` including user-defined __eq__ on repo objects."""
+        if self.is_unresolved(a) or self.is_unresolved(b):
+            simple = (VInt, VBool, VStr, VNone, VOpaque, VFloat)
+
+            def all_simple(v):
+                if isinstance(v, VUnion):
+                    return all(all_simple(x) for _, x in v.alts) if v.resolved is None else all_simple(v.resolved)
+                return isinstance(v, simple)
+            if all_simple(a) and all_simple(b):
+                return self.lift2(lambda x, y: self.py_eq(x, y, node), a, b)
         a, b = self.res(a), self.res(b)
         r = models.user_eq(self, a, b, node)
         if r is not None:
@@ -473,6 +482,11 @@ class ExprMixin:
 
     def map_key(self, c, key, node=None):
         key = self.res(key)
+        if c.kkind == 'absval':
+            # keys are objects compared by == : the key term is the abstract value
+            if isinstance(key, VOpaque):
+                return models.absval(key.t)
+            self.limit(f'map keyed by object values used with key {key}', node)
         try:
             return self.flat(key, c.kkind)
         except EngineLimit:
